@@ -32,7 +32,7 @@ VARIABLE st
 Init == \/ \E sec \in 0..1500, suf \in {"w", "s", "u"} : st = <<"time", sec * 60, suf>>            \* 00:00 .. 25:00 by the minute
         \/ \E m \in -960..960 : st = <<"offset", m * 60>>                                            \* -16:00 .. +16:00 by the minute
         \/ \E d \in -4..11 : st = <<"delta", d * 900>>                                               \* -1:00 .. +2:45 in 15-minute steps
-        \/ \E y \in 1873..2126 : st = <<"year", y>>
+        \/ \E y \in 1872..2127 : st = <<"year", y>>          \* every year the transformer admits (is_year_tiny)
         \/ st = <<"year", MaxYear>> \/ st = <<"year", MinYear>>
 Spec == Init /\ [][UNCHANGED st]_st
 TimeOK == st[1] = "time" => LET e == EncTime(st[2], st[3]) IN
@@ -45,7 +45,7 @@ ExtOffsetOK == st[1] = "offset" => \A d \in -4..11 :
 BasicOffsetOK == (st[1] = "offset" /\ st[2] % 900 = 0) => DecBasic(EncBasicOffset(st[2])) * 60 = st[2]
 BasicDeltaOK == st[1] = "delta" => DecBasic(EncBasicOffset(st[2])) * 60 = st[2]
 YearOK == st[1] = "year" => (IF st[2] = MaxYear THEN DecYear(EncYear(st[2])) = 2126 ELSE IF st[2] = MinYear THEN DecYear(EncYear(st[2])) = 1873
-                             ELSE DecYear(EncYear(st[2])) = st[2])
+                             ELSE DecYear(EncYear(st[2])) = st[2] /\ EncYear(st[2]) \in -128..127)
 Dump == PrintT(ToJson(CASE st[1] = "time" -> <<"time", st[2], st[3]>> \o EncTime(st[2], st[3])
                         [] st[1] = "offset" -> <<"offset", st[2], EncBasicOffset(st[2]), EncExtOffsetCode(st[2]), EncExtDeltaCode(st[2], 0), EncExtDeltaCode(st[2], 3600)>>
                         [] st[1] = "delta" -> <<"delta", st[2], EncBasicOffset(st[2]), (st[2] \div 900) + 4>>
